@@ -286,6 +286,12 @@ def codes_for(dm):
         out.append(('%.2f' % k).rstrip('0').rstrip('.') + 'K')
         if dm < 1000 and dm % 100 == 0:
             out.append('%.2fK' % k)      # 0.50K
+        # padded spellings of round distances (seed C15-h: a "tidy-up" of trailing zeros that ate the zeros of the integer
+        # part - '70.0K' read as '7K'): whole kilometres as N.0K / N.00K / Nk, tenths as N.d0K
+        if dm % 1000 == 0 and dm <= 999000:
+            out += ['%d.0K' % (dm // 1000), '%d.00K' % (dm // 1000), '%dk' % (dm // 1000)]
+        elif dm % 100 == 0 and dm <= 999000:
+            out.append('%.2fK' % k)
     return out
 
 
@@ -360,6 +366,8 @@ def run15(tier):
             for age in ages:
                 lanes.append((tbl, g, age, rowcodes))
     ds.update(range(20, 400001, 37 if quick else 7))
+    ds.update(range(1000, 400001, 1000))          # every whole kilometre (padded spellings N.0K, N.00K)
+    ds.update(range(100, 30001, 100))
     if not quick:
         ds.update(range(20, 60001))
     dists = []
@@ -369,6 +377,8 @@ def run15(tier):
     # miles spellings (athlib counts a mile as 1609 m: the stated distance of q miles is floor(1609 q) metres)
     for k in range(1, 250):
         dists.append((1609 * k, '%dM' % k))
+        dists.append((1609 * k, '%d.0M' % k))
+        dists.append((1609 * k, '%d.00M' % k))
         if k < 40:
             dists.append(((1609 * (100 * k + 50)) // 100, '%d.5M' % k))
             dists.append(((1609 * (100 * k + 25)) // 100, '%d.25M' % k))
